@@ -418,6 +418,7 @@ def check(ctx) -> None:
     rule_k5(ctx)
     rule_k8(ctx)
     rule_k9(ctx)
+    rule_k10(ctx)
 
 
 def rule_k8(ctx) -> None:
@@ -541,6 +542,79 @@ def rule_k9(ctx) -> None:
                 g, e, u = bad
                 ctx.finding("C12-K9", "%s:row-value-not-json-stable:%s" % (s.func.qualname.split("synrbl.", 1)[-1], "/".join(sorted(map(str, s.keytexts)))), s.where(), "the value stored in the row comes from %s (%s at %s): written to the JSON cache and read back it is a list, so a batch served from the cache returns rows that differ from the rows computed without cache" % (u, unparse(e)[:40], g.loc(e)))
     ctx.require(n >= 10, "fewer than 10 row stores found in the pipeline stages (%d)" % n)
+
+
+def rule_k10(ctx) -> None:
+    """A setting that names a *file the pipeline reads* (a rule database, a model) identifies results only together with
+    the file's content: the key has to cover the content (a digest of the bytes), not the path - the file can be edited
+    under the same name between two runs over one cache directory."""
+    from ..util import param_attrs
+
+    ctx.rule("C12-K10", "a Balancer setting that names a file read by a stage enters the cache key by content, not by path", 0)
+    prog = ctx.prog
+    cls = prog.cls(BAL)
+    init = prog.lookup_method(cls, "__init__")
+    READERS = {"open", "load_database", "load", "read_text", "read_bytes", "read_csv", "read_json", "load_model"}
+    ctor_params = set(init.params[1:] + init.kwonly)
+    # attributes of the Balancer that hold a ctor parameter (possibly wrapped: os.path.abspath(p))
+    holds = {}
+    for n in own_nodes(init.node):
+        if isinstance(n, ast.Assign):
+            for t in n.targets:
+                if isinstance(t, ast.Attribute) and isinstance(t.value, ast.Name) and t.value.id == init.params[0]:
+                    used = names_in(n.value) & ctor_params
+                    if used and ctx.ev._ctor_of(n.value, init) is None:
+                        holds[t.attr] = used
+    file_params = {}
+    for c in calls(init):
+        sub = ctx.ev._ctor_of(c, init)
+        if sub is None:
+            continue
+        scls = sub[0]
+        sinit = prog.lookup_method(scls, "__init__")
+        if sinit is None:
+            continue
+        sparams = sinit.params[1:]
+        bound = [(sparams[i], a) for i, a in enumerate(c.args) if i < len(sparams)] + [(k.arg, k.value) for k in c.keywords if k.arg]
+        for sp, a in bound:
+            roots = set(names_in(a) & ctor_params)
+            for x in ast.walk(a):
+                if isinstance(x, ast.Attribute) and isinstance(x.value, ast.Name) and x.value.id == init.params[0] and x.attr in holds:
+                    roots |= holds[x.attr]
+            if not roots:
+                continue
+            names = param_attrs(scls, sp)
+            reads = False
+            for m in scls.methods.values():
+                for cc in calls(m):
+                    if unparse(cc.func).split(".")[-1] in READERS:
+                        for y in [z for a_ in list(cc.args) + [k.value for k in cc.keywords] for z in ast.walk(a_)]:
+                            if (isinstance(y, ast.Name) and y.id == sp and m is sinit) or (isinstance(y, ast.Attribute) and y.attr in names and y.attr != sp):
+                                reads = True
+                            if isinstance(y, ast.Name) and y.id in names and m is sinit:
+                                reads = True
+            if reads:
+                for r in roots:
+                    file_params[r] = "%s(%s=..)" % (scls.name, sp)
+    if not file_params:
+        ctx.note("C12-K10: no Balancer setting names a file that a stage reads on this tree")
+        return
+    cfgm = prog.lookup_method(cls, "__cache_config")
+    ctx.require(cfgm is not None, "Balancer.__cache_config vanished")
+    for p_, via in sorted(file_params.items()):
+        attrs = {a for a, roots in holds.items() if p_ in roots} | {p_}
+        vals = []
+        for d in [x for x in own_nodes(cfgm.node) if isinstance(x, ast.Dict)]:
+            for k, v in zip(d.keys, d.values):
+                if any((isinstance(y, ast.Attribute) and y.attr in attrs) or (isinstance(y, ast.Name) and y.id in attrs) for y in ast.walk(v)):
+                    vals.append(v)
+        for st in [x for x in own_nodes(cfgm.node) if isinstance(x, ast.Assign) and any(isinstance(t, ast.Subscript) for t in x.targets)]:
+            if any(isinstance(y, ast.Attribute) and y.attr in attrs for y in ast.walk(st.value)):
+                vals.append(st.value)
+        by_content = any(isinstance(y, ast.Call) and unparse(y.func).split(".")[-1] in ("sha256", "sha1", "md5", "blake2b", "hexdigest", "read", "read_bytes", "read_text", "file_digest", "crc32") for v in vals for y in ast.walk(v))
+        ctx.instance("C12-K10", "setting %s names a file read by %s; key entry: %s" % (p_, via, [unparse(v)[:40] for v in vals] or "none"), cfgm.loc(), ok=by_content)
+        if not by_content:
+            ctx.finding("C12-K10", "Balancer:cache-key:file-by-path:%s" % p_, cfgm.loc(), "the setting %r names a file that %s reads, and the cache key covers %s - the path, not the content: after the file is edited under the same name a run over the same cache directory is served rows computed with the old file" % (p_, via, [unparse(v)[:40] for v in vals] or "nothing of it"))
 
 
 def rule_k5(ctx) -> None:
@@ -679,6 +753,21 @@ def rule_k7(ctx) -> None:
         if len(rets) == 1 and isinstance(rets[0].value, ast.Call) and unparse(rets[0].value.func).split(".")[-1] == "dumps" and rets[0].value.args and isinstance(rets[0].value.args[0], ast.Name) and rets[0].value.args[0].id in g.params:
             dumps.append((c, c.args[g.params.index(rets[0].value.args[0].id)] if g.params.index(rets[0].value.args[0].id) < len(c.args) else None))
     ctx.require(dumps, "get_hash_key no longer serialises its argument with json.dumps / pickle.dumps")
+    # ... and the key is the whole digest: a prefix of it addresses entries by a few bits, and two different payloads
+    # whose digests share the prefix share the entry
+    for r in [x for x in own_nodes(f.node) if isinstance(x, ast.Return) and x.value is not None]:
+        v = r.value
+        for _ in range(3):
+            if isinstance(v, ast.Name):
+                d_ = assignments_to(f, v.id)
+                if len(d_) == 1 and d_[0][2] is None:
+                    v = d_[0][1]
+                    continue
+            break
+        cut = next((x for x in ast.walk(v) if isinstance(x, ast.Subscript) and isinstance(x.slice, ast.Slice)), None)
+        ctx.instance("C12-K7", "get_hash_key returns %s" % unparse(v)[:50], f.loc(r), ok=cut is None)
+        if cut is not None:
+            ctx.finding("C12-K7", "CacheManager.get_hash_key:truncated-digest", f.loc(r), "the key is a slice of the digest (%s): entries are addressed by a few bits only, two different batches (or one batch under two settings) whose digests share that prefix share one entry, and the second is served the rows of the first" % unparse(cut)[:50])
     for c, arg in dumps:
         for _ in range(3):
             if isinstance(arg, ast.Name) and arg.id != data_p:
